@@ -1,10 +1,12 @@
 //! mtmc – bounded exhaustive exploration of momtrop against the exact reference model.
 //! usage: mtmc <Cxx> --tier quick|thorough [--replay <file>]
 mod c06;
+mod c14;
 mod common;
 mod kernel;
 mod obs;
 mod sampler;
+mod scalar;
 mod scope;
 mod sprops;
 mod table;
@@ -50,11 +52,13 @@ fn main() {
             let case = &v["case"];
             match case["engine"].as_str().unwrap_or("") {
                 "table" => table::replay(&ctx, case),
+                "sampler" if prop == "C14" || prop == "C19" => c14::replay_point(&ctx, case),
                 "sampler" => sprops::replay_point(&ctx, case),
                 "c06" => c06::replay(&ctx, case),
                 "kernel" => match case["kind"].as_str().unwrap_or("") {
                     "gamma" | "gamma-pair" => kernel::replay_gamma(case),
                     "matrix" => kernel::replay_matrix(&ctx, case),
+                    "dd-matrix" => c14::replay_dd(case),
                     _ => kernel::replay_vector(case),
                 },
                 other => {
@@ -67,6 +71,7 @@ fn main() {
                 "C03" | "C04" | "C05" => table::run(&ctx),
                 "C06" => c06::run(&ctx),
                 "C02" => sprops::run_c02(&ctx),
+                "C14" | "C19" => c14::run(&ctx),
                 "C12" => kernel::run_c12(&ctx),
                 "C15" => kernel::run_c15(&ctx),
                 "C16" => kernel::run_c16(&ctx),
